@@ -453,13 +453,28 @@ def _call_md(mon, tags, M, md_bad):
 
 
 def _mu_class(M):
-    """Witness class of a mu_reference_model failure: an eta occurs in an assignment whose expression is (or contains)
-    a Piecewise — `as_independent` + `sympy.solve` then produce a partial (nan) mu."""
+    """Witness class of a mu_reference_model failure: (1) an eta occurs in an assignment whose expression is (or
+    contains) a Piecewise — `as_independent` + `sympy.solve` then produce a partial (nan) mu; (2) the eta reaches the
+    assignment a second time through another symbol it reads, so the solved mu depends on the eta itself
+    (log of a quantity that is zero / negative for some eta)."""
     etas = {sympy.Symbol(n) for n in M.random_variables.etas.names}
     for s in M.statements.before_odes:
         e = exprconv.to_sympy(s.expression)
         if e.free_symbols & etas and e.has(sympy.Piecewise):
             return "mu-reference-piecewise-eta"
+    sts = M.statements.before_odes
+    for i, s in enumerate(sts):
+        e = exprconv.to_sympy(s.expression)
+        for eta in e.free_symbols & etas:
+            for other in e.free_symbols - {eta}:
+                try:
+                    full = exprconv.to_sympy(sts[:i].full_expression(Expr.symbol(str(other))))
+                except Exception as ex:
+                    if type(ex).__name__ == "CaseTimeout":
+                        raise
+                    continue
+                if eta in full.free_symbols:
+                    return "mu-reference-eta-reaches-twice"
     return "mu-reference-changes-value"
 
 
@@ -548,7 +563,7 @@ def _extractors(M, w, drv, rng, seed, tags):
                 raise
             mon.append({"cls": f"internal-error:{what}", "what": f"{what} raised {type(ex).__name__}: {str(ex)[:200]}"})
             continue
-        got, want = at_point(e, ov), direct(ov)
+        got, want = at_point(e), direct(ov)      # the extracted expression must not depend on the zeroed variables any more
         if not U.same_value(got, want):
             cls = "obs-expr-first-assignment" if not obs_safe else "obs-expr-wrong"
             mon.append({"cls": cls, "what": f"{what} evaluates to {sympy.N(got, 12)}, executing the statements gives Y = {sympy.N(want, 12)}"})
@@ -574,7 +589,7 @@ def _extractors(M, w, drv, rng, seed, tags):
         for nm, g in zip(names, grads):
             x0 = U.value_of(seed, nm, "small")
             fd = _fd(lambda x: sympy.N(direct(dict(ov, **{nm: x})), 60), x0, h)
-            got = sympy.N(at_point(g, ov), 60)
+            got = sympy.N(at_point(g), 60)
             if abs(complex(got - fd)) > 1e-8 * (1 + abs(complex(fd))):
                 cls = "obs-expr-first-assignment" if not obs_safe else "gradient-expr-wrong"
                 mon.append({"cls": cls, "what": f"{what} d/d{nm} = {sympy.N(got, 12)}, central finite difference of the "
